@@ -72,6 +72,9 @@ type Step struct {
 	Tick int64  `json:"tick"` // clock advance before the step (>=1)
 	N    *Noti  `json:"n,omitempty"`
 	Msg  string `json:"msg,omitempty"`
+	// Direct: the operation is made through the exported method of the *cache.Target
+	// returned by GetTarget (Target.GnmiUpdate/Reset/Sync/Connect) instead of the Cache method.
+	Direct bool `json:"direct,omitempty"`
 }
 
 // Scenario is a complete history.
@@ -281,6 +284,7 @@ func genStep(pr profile, targets int, thr int64) func(t *rapid.T) Step {
 		case "connecterr":
 			s.Msg = rapid.SampledFrom([]string{"dial failed", "eof"}).Draw(t, "msg")
 		}
+		s.Direct = rapid.IntRange(0, 5).Draw(t, "direct") == 0
 		return s
 	}
 }
